@@ -130,6 +130,18 @@ def replace_text(root: Path, rel: str, old: str, new: str):
     f.write_text(s.replace(old, new, 1))
 
 
+def replace_regex(root: Path, rel: str, rx: str, repl: str, min_count: int = 1):
+    """regex replacement in the non-test part of a file; at least `min_count` matches required"""
+    f = root / rel
+    s = f.read_text()
+    cut = s.find("#[cfg(test)]\nmod tests")
+    head, tail = (s, "") if cut < 0 else (s[:cut], s[cut:])
+    head2, n = re.subn(rx, repl, head)
+    if n < min_count:
+        raise InjectError("%s: regex anchor /%s/ matched %d times (< %d)" % (rel, rx, n, min_count))
+    f.write_text(head2 + tail)
+
+
 def insert_before_fn(root: Path, rel: str, fn_sig_regex: str, text: str):
     """Insert attribute text on the line before the (unique) function signature matching
     the regex (searched in the non-test part of the file)."""
@@ -161,6 +173,8 @@ def apply(root: Path, spec: dict):
         redirect_use(root, rel, old, new)
     for rel, old, new in spec.get("replacements", []):
         replace_text(root, rel, old, new)
+    for rel, rx, repl, mn in spec.get("regex_replacements", []):
+        replace_regex(root, rel, rx, repl, mn)
     for rel, rx, text in spec.get("contracts", []):
         insert_before_fn(root, rel, rx, text)
     for rel, mods in spec.get("modules", {}).items():
